@@ -7,7 +7,7 @@ C07Configs == {[phase |-> pf[1], fabric |-> pf[2], regime |-> r, n |-> n] :
                  pf \in Valid, r \in {0, 7, 4, 6, 1, 2, 3, 5, 8, -1}, n \in {3, 8}}
 \* (invalid (phase, fabric) pairs are exhausted by DispatchTable; they are left out here so that
 \*  the simulated machine is deterministic - the "either" class enables two actions at once)
-C07Pars == {[M |-> m, chi |-> c, asm |-> a, phiOl |-> 7] : m \in {0, 125}, c \in {0, 3, 9}, a \in {<<0, 1>>, <<1, 0>>}}
+C07Pars == {[M |-> m, chi |-> c, asm |-> a, phiOl |-> 7, x |-> <<5, 0>>] : m \in {0, 125}, c \in {0, 3, 9}, a \in {<<0, 1>>, <<1, 0>>}}
 C07Next == \/ \E m \in Minerals :
                  \/ \E c \in Configs, s \in Seeds, tx \in Textures : Create(m, c, s, tx, InitO(s, c.n, tx), InitF(c.n, tx))
                  \/ UpdNext(m)
